@@ -81,7 +81,7 @@ def run(R, P="C09"):
                     "%s passes only part of the caller's arguments on (%s): positional or keyword arguments are dropped for this calling convention"
                     % (mname, "; ".join(q.src(c)[:60] for c in partial)))
             # every normal return passes a forwarding call (asyncio-mode refusal paths end in raise or a bare warning)
-            rets = [n for n in cfg.nodes if n.kind == "stmt" and isinstance(n.ast, ast.Return) and n.ast.value is not None]
+            rets = [n for n in cfg.nodes if n.kind == "stmt" and isinstance(n.ast, ast.Return) and n.ast.value is not None and not q.is_none(n.ast.value)]
             p = cfg.find_path([cfg.entry], rets, N, cut_nodes=fw_nodes)
             R.check(p is None and fw_nodes, P + ".FORWARD", key + ":reaches", site,
                     "every value-returning path of %s goes through a call that received (*%s, **%s)" % (mname, va, kw),
@@ -90,7 +90,7 @@ def run(R, P="C09"):
 
     # ---- ROUTE: sync = .value() of async
     def ret_srcs(m):
-        return [q.src(n.value) for n in ast.walk(m.node) if isinstance(n, ast.Return) and n.value is not None]
+        return [q.src(n.value) for n in ast.walk(m.node) if isinstance(n, ast.Return) and n.value is not None and not q.is_none(n.value)]
 
     ad = repo.cls("decorators.AsyncDecorator")
     pad = repo.cls("decorators.PureAsyncDecorator")
@@ -201,7 +201,10 @@ def run(R, P="C09"):
     gcfg = cfg_of(g)
     gp = q.param_names(g.node)
     bind = [n for n, c in kit.call_sites(g, lambda c: q.call_name(c) == "self.sync_fn.__get__" and [q.src(a) for a in c.args] == gp[1:3])]
-    fresh = [n for n, c in kit.call_sites(g, lambda c: isinstance(c.func, ast.Call) and (q.call_name(c.func) or "").endswith("decorate"))]
+    bound_names = set(t.id for n in q.scope_nodes(g.node) if isinstance(n, ast.Assign) and isinstance(n.value, ast.Call) and q.call_name(n.value) == "self.sync_fn.__get__"
+                      for t in n.targets if isinstance(t, ast.Name))
+    # a fresh copy of the decorator is built with the freshly bound sync_fn: decorate(<cls>, ..., <bound>, ...)
+    fresh = [n for n, c in kit.call_sites(g, lambda c: (q.call_name(c) or "").endswith("decorate") and (bound_names & q.names_loaded(c)))]
     rets = [n for n in gcfg.nodes if n.kind == "stmt" and isinstance(n.ast, ast.Return)]
     p1 = gcfg.find_path([gcfg.entry], rets, N, cut_nodes=bind)
     p2 = gcfg.find_path([gcfg.entry], rets, N, cut_nodes=fresh)
